@@ -280,9 +280,9 @@ func init() {
 		},
 		NumCases: func(tier, build string) int {
 			if build == "race" {
-				return 1500
+				return 30000
 			}
-			return vf.Tiered(tier, 500, 16000)
+			return vf.Tiered(tier, 500, 400000)
 		},
 		Builds: func(tier string) []string {
 			if tier == "thorough" {
